@@ -166,8 +166,8 @@ def replay_witness(env, s0, witness, memory):
 
 RESETS = {
     'empty': ('move', lambda H, W, sx, p: R.empty(Shape(H, W), sx.choice('ra', [False, True]), sx.choice('re', [False, True]), rng=SymRng(sx))),
-    'crossing': ('move', lambda H, W, sx, p: R.crossing(Shape(H, W), p['n'], Wall, rng=SymRng(sx))),
-    'rooms': ('move', lambda H, W, sx, p: R.rooms(Shape(H, W), p['layout'], rng=SymRng(sx))),
+    'crossing': ('move', lambda H, W, sx, p: R.crossing(Shape(H, W), p['n'], Wall, rng=SymRng(sx, preset=p.get('preset')))),
+    'rooms': ('move', lambda H, W, sx, p: R.rooms(Shape(H, W), p['layout'], rng=SymRng(sx, preset=p.get('preset')))),
     'keydoor': ('keydoor', lambda H, W, sx, p: R.keydoor(Shape(H, W), rng=SymRng(sx))),
     'teleport': ('teleport', lambda H, W, sx, p: R.teleport(Shape(H, W), rng=SymRng(sx))),
     'memory': ('move', lambda H, W, sx, p: R.memory(Shape(H, W), p['colors'], rng=SymRng(sx))),
@@ -221,16 +221,25 @@ def obligations(tier):
     obs = []
 
     def add(name, H, W, **p):
-        tag = '-'.join(f'{k}{v}' for k, v in p.items() if k != 'colors') + (f'-{len(p["colors"])}colours' if 'colors' in p else '')
-        obs.append(Obligation(f'{name}-{H}x{W}' + (('-' + tag) if tag else ''), mk(name, H, W, p), max_violations=100000, params=dict(reset=name, H=H, W=W, **{k: (sorted(c.name for c in v) if k == 'colors' else v) for k, v in p.items()})))
+        tag = '-'.join(f'{k}{v}' for k, v in p.items() if k not in ('colors', 'preset')) + ('-draws' + ''.join(str(v) for v in p['preset'].values()) if 'preset' in p else '') + (f'-{len(p["colors"])}colours' if 'colors' in p else '')
+        obs.append(Obligation(f'{name}-{H}x{W}' + (('-' + tag) if tag else ''), mk(name, H, W, p), max_violations=100000, params=dict(reset=name, H=H, W=W, **{k: (sorted(c.name for c in v) if k == 'colors' else (list(v.values()) if k == 'preset' else v)) for k, v in p.items()})))
 
     for (H, W) in [(4, 4), (4, 5), (5, 5)]:
         add('empty', H, W)
-    for (H, W, ns) in [(5, 5, [1, 2]), (7, 7, [1, 2, 3])] + ([] if q else [(9, 9, [1, 2]), (5, 9, [1, 2, 3])]):
+    for (H, W, ns) in [(5, 5, [1, 2]), (7, 7, [1, 2, 3])] + ([] if q else [(9, 9, [1]), (5, 9, [1, 2, 3])]):
         for n in ns:
             add('crossing', H, W, n=n)
-    for (H, W, lay) in [(5, 5, (1, 2)), (5, 5, (2, 1)), (5, 5, (2, 2)), (5, 7, (1, 2))] + ([] if q else [(7, 7, (2, 2))]):
+    if not q:  # 9x9 with 2 rivers: split by the first two draws of the river shuffle (6 candidate rivers)
+        for i in range(6):
+            for j in range(6):
+                if i != j:
+                    add('crossing', 9, 9, n=2, preset={0: i, 1: j})
+    for (H, W, lay) in [(5, 5, (1, 2)), (5, 5, (2, 1)), (5, 5, (2, 2)), (5, 7, (1, 2))]:
         add('rooms', H, W, layout=lay)
+    if not q:  # the shipped four-rooms 7x7: split by its four passage draws
+        import itertools
+        for pv in itertools.product([1, 2], [4, 5], [1, 2], [4, 5]):
+            add('rooms', 7, 7, layout=(2, 2), preset=dict(enumerate(pv)))
     for (H, W) in [(4, 6), (4, 5), (5, 5), (7, 5)] + ([] if q else [(5, 6), (6, 5), (8, 5)]):
         add('keydoor', H, W)
     for (H, W) in [(4, 5), (5, 5)] + ([] if q else [(5, 6)]):
